@@ -352,6 +352,23 @@ func execMembership(t *testing.T, p *Plan) *Result {
 				continue
 			}
 			// let exactly one poll happen
+			var racing []string
+			before := modelSet()
+			if nr := op.I["race"]; nr > 0 && prop == "C05" {
+				// requests that reach the proxy at the instant of the poll (the resolver's period starts with the world)
+				period := 2 * time.Second
+				rem := period - w.K.Elapsed()%period
+				for k := 0; k < nr; k++ {
+					seq++
+					id := fmt.Sprintf("q%d", seq)
+					ids := dlgIDs{callID: "race-" + id, fromURI: "sip:r@caller.test", toURI: "sip:svc@svc.example.com", fromTag: "rt" + id, ruri: "sip:svc.example.com"}
+					data := ids.request(reqOpts{cseq: 1, noToTag: true, id: id, method: "OPTIONS", srcAddr: "10.1.0.1:5060"})
+					d.uaSocket("10.1.0.1:5060")
+					w.N.InjectUDP(udpAddr("10.1.0.1:5060"), udpAddr(hostPort(l.Addr, l.UDP)), data, rem)
+					racing = append(racing, id)
+				}
+				w.stat("probe:dispatches-racing-with-the-poll")
+			}
 			w.K.Advance(2 * time.Second)
 			w.K.Settle(5 * time.Second)
 			for _, n := range names {
@@ -370,6 +387,34 @@ func execMembership(t *testing.T, p *Plan) *Result {
 				models[n].apply(sc[idx])
 				if sc[idx].Fail || len(sc[idx].IPs) == 0 {
 					w.stat(fmt.Sprintf("probe:consecutive-failure-%d", min4(models[n].failed)))
+				}
+			}
+			// a racing dispatch saw the rotation before or after the change: one target at most, a member of either
+			after := modelSet()
+			for _, id := range racing {
+				ds := destOf(id)
+				w.Stats["judged:C05"]++
+				ok := len(ds) <= 1
+				for _, dst := range ds {
+					in := false
+					for _, s := range append(append([]string{}, before...), after...) {
+						if s == dst {
+							in = true
+						}
+					}
+					ok = ok && in
+				}
+				stays := false
+				for _, b := range before {
+					for _, a := range after {
+						stays = stays || a == b
+					}
+				}
+				if len(ds) == 0 && stays {
+					ok = false // some backend was registered throughout: the request cannot have met an empty rotation
+				}
+				if !ok {
+					v("C05", "racing-dispatch", op.ID, fmt.Sprintf("n=%d", len(ds)), "a request that arrived while the rotation changed from %v to %v was sent to %v", before, after, ds)
 				}
 			}
 			probeAll(op.ID)
